@@ -209,8 +209,20 @@ func (b *c04book) judge(vp base.Voteproof, th base.Threshold) *c04viol {
 		return mk(map[string]any{"kind": "fails-validation", "origin": "counted", "check": "IsValid", "reason": c04errClass(fmt.Errorf("%s", msg))}, "IsValid(networkID): %s", msg)
 	}
 	if err := isaac.IsValidVoteproofWithSuffrage(vp, suf); err != nil {
-		return mk(map[string]any{"kind": "fails-validation", "origin": "counted", "check": "IsValidVoteproofWithSuffrage", "reason": c04errClass(err), "expels": c04nExpels(vp) > 0},
-			"IsValidVoteproofWithSuffrage: %v", err)
+		sig := map[string]any{"kind": "fails-validation", "origin": "counted", "check": "IsValidVoteproofWithSuffrage", "reason": c04errClass(err), "expels": c04nExpels(vp) > 0}
+		if x := c04nExpels(vp); x > 0 {
+			// structural class of an expel voteproof the validators refuse: number of expels against f = n - quorum, and whether
+			// the claimed result is what the distinct sign facts give among the FULL suffrage with the plain threshold
+			f := suf.Len() - c04quorum(th, suf.Len())
+			sig["expels_vs_f"] = map[bool]string{true: "lt", false: map[bool]string{true: "eq", false: "gt"}[x == f]}[x < f]
+			res, maj := c04recount(vp.SignFacts(), suf.Len(), c04quorum(th, suf.Len()))
+			gotMaj := ""
+			if m := vp.Majority(); m != nil {
+				gotMaj = m.Hash().String()
+			}
+			sig["result_is_recount_among_full_suffrage_with_plain_threshold"] = res == vp.Result().String() && maj == gotMaj
+		}
+		return mk(sig, "IsValidVoteproofWithSuffrage: %v", err)
 	}
 	// fresh recount
 	n, q := suf.Len(), c04quorum(th, suf.Len())
